@@ -74,7 +74,7 @@ def install(world, interp, plans, log=None):
     return restore, made
 
 
-def source(n_chunks, kind):
+def source(n_chunks, kind, empties=()):
     src = Obj(None, {}, label='source')
     st = {'i': 0}
 
@@ -82,7 +82,7 @@ def source(n_chunks, kind):
         i = st['i']
         st['i'] += 1
         interp.effect('source.read', K(i))
-        if i >= n_chunks:
+        if i >= n_chunks or i in empties:
             return K(b'')
         t = T('sym', 'chunk%d' % i)
         interp.types[t] = 'bytes'
@@ -94,6 +94,8 @@ def source(n_chunks, kind):
         interp.effect('source.next', K(i))
         if i >= n_chunks:
             raise AbsRaise(T('exc', 'StopIteration'))
+        if i in empties:
+            return K(b'')
         t = T('sym', 'chunk%d' % i)
         interp.types[t] = 'bytes'
         return t
@@ -199,7 +201,27 @@ def run(ctx):
                         plans[expected]['match'] = mat
                     n_cases += 1
                     _scenario(ctx, cls, kind, expected, plans, n_chunks)
+    # empty chunks in the middle of the stream are data like any other
+    for kind in ('file', 'iter'):
+        for empties in ({1}, {0}, {0, 1}):
+            for sc in ({}, {'vhd': {'fault': {2: 'ValueError'}}}):
+                plans = {n: dict(sc.get(n, {})) for n in names}
+                n_cases += 1
+                _scenario(ctx, cls, kind, None, plans, n_chunks,
+                          empties=empties)
+    # an empty allowed_formats means "all formats"
+    for kind in ('file', 'iter'):
+        for allowed in ([], ()):
+            for sc in ({'vhdx': {'fault': {1: 'ValueError'}}},
+                       {'vhd': {'fault': {0: 'ValueError'}}}, {}):
+                plans = {n: dict(sc.get(n, {})) for n in names}
+                plans['vhdx'].setdefault('complete', (False, False, True))
+                plans['vhdx'].setdefault('match', (False, False, False))
+                n_cases += 1
+                _scenario(ctx, cls, kind, 'vhdx', plans, n_chunks,
+                          allowed=allowed)
     n_cases += query_invariance(ctx)
+    _finish_never_raises(ctx)
     rep.count('fault scenarios', n_cases, floor=300)
 
 
@@ -224,11 +246,14 @@ def query_invariance(ctx):
     return n_cases
 
 
-def _scenario(ctx, cls, kind, expected, plans, n_chunks, query=False):
+def _scenario(ctx, cls, kind, expected, plans, n_chunks, query=False,
+              empties=(), allowed=None):
     rep, world = ctx.report, ctx.world
     faults = {n: p['fault'] for n, p in plans.items() if p.get('fault')}
-    label = '%s%s source, expected=%s, faults=%s, flags=%s' % (
+    label = '%s%s%s%s source, expected=%s, faults=%s, flags=%s' % (
         'format queried after every read, ' if query else '',
+        'empty chunk(s) at %s, ' % sorted(empties) if empties else '',
+        'allowed_formats=%r, ' % (allowed,) if allowed is not None else '',
         kind, expected, faults or '-',
         (plans.get(expected, {}).get('complete'),
          plans.get(expected, {}).get('match')) if expected in plans else '-')
@@ -239,8 +264,14 @@ def _scenario(ctx, cls, kind, expected, plans, n_chunks, query=False):
     def thunk(interp):
         restore, made = install(world, interp, plans)
         try:
-            src = source(n_chunks, kind)
-            w = interp.call(cls, [src], {'expected_format': K(expected)})
+            src = source(n_chunks, kind, empties)
+            kw = {'expected_format': K(expected)}
+            if allowed is not None:
+                kw['allowed_formats'] = ListV([K(a) for a in allowed])
+            interp.decide = lambda i, t: True if (
+                isinstance(t, T) and t.op == 'sym' and
+                str(t.args[0]).startswith('chunk')) else None
+            w = interp.call(cls, [src], kw)
             interp.effects[:] = []
             got = []
             holder['got'] = got
@@ -279,7 +310,8 @@ def _scenario(ctx, cls, kind, expected, plans, n_chunks, query=False):
                                                        n_chunks)
     delivered = [e for e in o.effects if e[0] == 'delivered']
     # R6.1 identity of delivered chunks
-    ok = all(e[2] == T('sym', 'chunk%d' % e[1].v) for e in delivered)
+    ok = all(e[2] == (K(b'') if e[1].v in empties else
+                      T('sym', 'chunk%d' % e[1].v)) for e in delivered)
     rep.check('R6.1', key + ':identity', ok,
               '%s: delivered %s' % (label, [show(e[2]) for e in delivered]),
               case=label)
@@ -287,13 +319,29 @@ def _scenario(ctx, cls, kind, expected, plans, n_chunks, query=False):
     for e in o.effects:
         if e[0] == 'eat':
             fed.setdefault(e[1], []).append(e[2])
-    def idx(x):
+    def idx(x, pos, seq):
         if isinstance(x, T) and x.op == 'sym' and \
                 str(x.args[0]).startswith('chunk') and \
                 str(x.args[0])[5:].isdigit():
             return int(x.args[0][5:])
+        if x == K(b'') and empties:
+            # the k-th empty chunk this inspector saw
+            seen = [j for j in range(n_chunks)
+                    if j in empties or True]
+            before = [idx(y, 0, ()) for y in seq[:pos]]
+            cand = [j for j in sorted(empties)
+                    if j not in before and all(
+                        isinstance(b, int) and b < j or b in empties
+                        for b in before)]
+            return cand[0] if cand else show(x)
         return show(x)
-    got_fed = {n: [idx(x) for x in fed.get(n, [])] for n in plans}
+    got_fed = {}
+    for n in plans:
+        seq = fed.get(n, [])
+        out = []
+        for pos, x in enumerate(seq):
+            out.append(idx(x, pos, seq))
+        got_fed[n] = out
     rep.case({'case': label, 'outcome': o.brief(),
               'fed': {k: v for k, v in got_fed.items()}},
              (key, o.kind, tuple(sorted((k, tuple(v)) for k, v in
@@ -341,3 +389,41 @@ def _scenario(ctx, cls, kind, expected, plans, n_chunks, query=False):
                   'source reads, fed %s' % (
                       label, want_out, at, want_delivered, o.brief(),
                       len(delivered), len(reads), got_fed), case=label)
+
+
+def _finish_never_raises(ctx):
+    """_finish()/close() call finish() of every inspector unguarded: no real
+    inspector's finish() may raise, in any capture state."""
+    from ..specs import images
+    from . import _insp
+    rep = ctx.report
+    reg = _insp.registry(ctx)
+    imgs = {
+        'empty': b'', 'one byte': b'x', 'zeros 4K': b'\x00' * 4096,
+        'vmdk clean': images.vmdk(),
+        'vmdk announcing a footer, 1000 bytes': images.vmdk(
+            gd=images.GD_AT_END, length=4096)[:1000],
+        'vmdk announcing a footer, 600 bytes': images.vmdk(
+            gd=images.GD_AT_END, length=4096)[:600],
+        'vmdk footer consistent': images.vmdk(
+            gd=images.GD_AT_END, footer=images.vmdk_footer()),
+        'vhdx header only': images.vhdx()[:256 * 1024],
+    }
+    tasks = [(cls, key, s) for cls in sorted(reg.values()) for key in imgs
+             for s in ('giant', 'small-then-giant')]
+    results = _insp.run_matrix(ctx, tasks, imgs)
+    bad = None
+    for (cls, key, sched), res in sorted(results.items()):
+        if 'failure' in res:
+            rep.undecided('R6.4', 'finish[%s]' % cls, 'image %r: %s' % (
+                key, res['failure']))
+            continue
+        if res.get('finish_error'):
+            bad = bad or (cls, key, sched, res['finish_error'])
+    rep.evaluations += len(results)
+    rep.check('R6.4', 'finish() of every inspector', bad is None,
+              'finish() returns normally on %d (inspector, stream, '
+              'schedule) runs' % len(results) if bad is None else
+              '%s.finish() raises on stream %r (schedule %s): %s - the '
+              'error escapes from InspectWrapper.__next__ / close() to the '
+              'reader' % bad)
